@@ -5,6 +5,7 @@ package main
 
 import (
 	"bytes"
+	"compress/zlib"
 	"context"
 	"encoding/json"
 	"errors"
@@ -212,7 +213,9 @@ func entries(nStates, nBiomes int) []entry {
 		fieldEntry[pk.ByteArray]("ByteArray", func(r *vm.Rand) ([]byte, []prefix) {
 			return wbuf(pk.ByteArray(r.Bytes(r.Intn(40)))), []prefix{{0, "byte-array-length"}}
 		}),
-		fieldEntry[pk.BitSet]("BitSet", func(r *vm.Rand) ([]byte, []prefix) { return wbuf(pk.BitSet{1, 2, r.Int64B()}), []prefix{{0, "bit-set-length"}} }),
+		fieldEntry[pk.BitSet]("BitSet", func(r *vm.Rand) ([]byte, []prefix) {
+			return wbuf(pk.BitSet{1, 2, r.Int64B()}), []prefix{{0, "bit-set-length"}}
+		}),
 		fieldEntry[pk.VarInt]("VarInt", func(r *vm.Rand) ([]byte, []prefix) { return wbuf(pk.VarInt(r.Int64B())), nil }),
 		fieldEntry[pk.VarLong]("VarLong", func(r *vm.Rand) ([]byte, []prefix) { return wbuf(pk.VarLong(r.Int64B())), nil }),
 		fieldEntry[pk.UUID]("UUID", func(r *vm.Rand) ([]byte, []prefix) { return r.Bytes(16), nil }),
@@ -268,13 +271,22 @@ func entries(nStates, nBiomes int) []entry {
 		}, dec: bitStorageDec},
 		recvEntry("PaletteContainer[blocks].ReadFrom(fresh)", func(r *vm.Rand) ([]byte, []prefix) { return genPal(r, blocksKind, 4096) },
 			func() *level.PaletteContainer[level.BlocksState] { return level.NewStatesPaletteContainer(4096, 0) },
-			func(pc *level.PaletteContainer[level.BlocksState], src io.Reader) error { _, err := pc.ReadFrom(src); return err }),
+			func(pc *level.PaletteContainer[level.BlocksState], src io.Reader) error {
+				_, err := pc.ReadFrom(src)
+				return err
+			}),
 		recvEntry("PaletteContainer[blocks].ReadFrom(used)", func(r *vm.Rand) ([]byte, []prefix) { return genPal(r, blocksKind, 4096) },
 			usedStatesContainer(),
-			func(pc *level.PaletteContainer[level.BlocksState], src io.Reader) error { _, err := pc.ReadFrom(src); return err }),
+			func(pc *level.PaletteContainer[level.BlocksState], src io.Reader) error {
+				_, err := pc.ReadFrom(src)
+				return err
+			}),
 		recvEntry("PaletteContainer[biomes].ReadFrom", func(r *vm.Rand) ([]byte, []prefix) { return genPal(r, biomesKind, 64) },
 			func() *level.PaletteContainer[level.BiomesState] { return level.NewBiomesPaletteContainer(64, 0) },
-			func(pc *level.PaletteContainer[level.BiomesState], src io.Reader) error { _, err := pc.ReadFrom(src); return err }),
+			func(pc *level.PaletteContainer[level.BiomesState], src io.Reader) error {
+				_, err := pc.ReadFrom(src)
+				return err
+			}),
 		recvEntry("Section.ReadFrom", func(r *vm.Rand) ([]byte, []prefix) { c := buildChunk(r, 1); return wbuf(&c.Sections[0]), nil },
 			func() *level.Chunk { return level.EmptyChunk(1) },
 			func(c *level.Chunk, src io.Reader) error { _, err := c.Sections[0].ReadFrom(src); return err }),
@@ -632,6 +644,63 @@ func wrongDataLength(c *vm.Ctx, r *vm.Rand) {
 				continue
 			}
 			c.Cover("wrong-data-length.rejected")
+		}
+	}
+}
+
+// tinyCompressedFrames: every short plaintext over a handful of bytes (padded VarInts among them: 80 00, 81 80 00)
+// as a genuine zlib stream under every small declared data length, at the thresholds a peer can pick: the arithmetic
+// between "bytes the id took" and "bytes declared" has corners no mutation of a library-written frame visits.
+func tinyCompressedFrames(c *vm.Ctx) {
+	alpha := []byte{0x00, 0x01, 0x7f, 0x80, 0x81, 0xff}
+	var plains [][]byte
+	plains = append(plains, nil)
+	var rec func(prefix []byte, left int)
+	rec = func(prefix []byte, left int) {
+		if left == 0 {
+			return
+		}
+		for _, a := range alpha {
+			p := append(append([]byte{}, prefix...), a)
+			plains = append(plains, p)
+			rec(p, left-1)
+		}
+	}
+	rec(nil, 3)
+	plains = append(plains, []byte{0x80, 0x80, 0x00}, []byte{0x80, 0x80, 0x80, 0x00}, []byte{0x80, 0x80, 0x80, 0x80, 0x00}, []byte{0xff, 0xff, 0xff, 0xff, 0x0f, 9, 9}, []byte{0x80, 0x80, 0x80, 0x80, 0x80, 0x00})
+	for _, pl := range plains {
+		var zb bytes.Buffer
+		zw := zlib.NewWriter(&zb)
+		zw.Write(pl)
+		zw.Close()
+		z := zb.Bytes()
+		for dl := 1; dl <= 7; dl++ {
+			for _, th := range []int{0, 1, 2, 4} {
+				if dl < th {
+					continue
+				}
+				dlb := refwire.EncVarInt(int32(dl))
+				in := append(refwire.RawFrame(int32(len(dlb)+len(z)), dlb, z), 0x01, 0x00)
+				wit := func() any {
+					return map[string]any{"threshold": th, "declared_data_length": dl, "inflates_to_hex": vm.Hex(pl), "frame_hex": vm.Hex(in)}
+				}
+				c.Inflight(fmt.Sprintf("tiny compressed frame dl=%d th=%d plain=%x", dl, th, pl))
+				var p pk.Packet
+				var e error
+				if c.Guard("decode/tiny-compressed-frame", wit, func() { e = p.UnPack(rd(in), th) }) {
+					continue
+				}
+				c.Eval(vm.HashStr("tiny-frame", fmt.Sprint(dl, th), string(pl)), true)
+				if e == nil && dl != len(pl) {
+					c.Violation("decode/inconsistent-data-length-accepted/tiny", fmt.Sprintf("UnPack returned success for a frame declaring %d bytes whose stream inflates to %d (%x)", dl, len(pl), pl), wit())
+					continue
+				}
+				if e == nil {
+					c.Cover("tiny-compressed-frame.accepted")
+				} else {
+					c.Cover("tiny-compressed-frame.rejected")
+				}
+			}
 		}
 	}
 }
@@ -1193,6 +1262,9 @@ func run(c *vm.Ctx) {
 	}
 	if c.Shard == 1%c.NShards {
 		bigPayloads(c)
+	}
+	if c.Shard == 2%c.NShards {
+		tinyCompressedFrames(c)
 	}
 	section("huge+big")
 	sr := c.Rand("sizes")
